@@ -804,7 +804,9 @@ func reopen(root, imgDir string, w *world, c cfg, acked []int, ops []string) str
 			sj++
 		}
 	}
-	out := fmt.Sprintf("r=ok,%d,%s,%s,%d mc=%s bb=%d sj=%d", tip, strings.Join(chain, "."), utxo, missing, joinOr(mc), bb, sj)
+	bs := ch.BestSnapshot()
+	out := fmt.Sprintf("r=ok,%d,%s,%s,%d mc=%s bb=%d sj=%d bs=%d/%d/%d", tip, strings.Join(chain, "."), utxo, missing, joinOr(mc), bb, sj,
+		bs.Height, bs.NumTxns, bs.TotalTxns)
 	for _, op := range deliveries(ops) {
 		id, _ := strconv.Atoi(op[1:])
 		ch.ProcessBlock(btcutil.NewBlock(w.byID[id].MsgBlock()), blockchain.BFNone)
